@@ -23,6 +23,17 @@
 //                 categories / levels / repeated texts; destroyed at the end of the op
 //   app           construct the QCoreApplication (main phase only; lives until main returns)
 //   restore       Logger::restorePreviousMessageHandler()
+//   ownr:T:M:C:O:N  a local Logger with sendToFile(<dir>/T, max size M, max count C, options O), N messages, destroyed at the end
+//   edge:K:T:N    arguments the API accepts and IGNORES, then N messages through a local Logger sending to template T:
+//                 K = 0 null handler / filter / formatter / sink / attribute handler / pipeline pointers appended (and removed),
+//                 1 sendToFile(empty name), an IODeviceSink on a null device, QtLogger::configure(null pipeline, ...),
+//                 2 empty pattern (format(""), PatternFormatter("") printed on stdout), empty category rules, 3 all of them
+// Boundary ARGUMENTS: template T = -1 is the EMPTY path (configure() documents it as "no file", sendToFile ignores it); M and C
+// may be negative (maxFileCount <= 0 is documented as "keep every rotated file", maxFileSize <= 0 as "no size limit"); pattern
+// K = 3 is the empty pattern.
+// A library as the project's CMake build produces it is compiled with -DQT_NO_DEBUG (Qt5::Core adds it outside Debug), the single
+// header is compiled with the USER's flags: the check builds this program against such a library and header-only without / with
+// QT_NO_DEBUG.
 // ending:  ret:C  return C from main | exit:C  std::exit(C) in main | fatal  qFatal() | qexit:C  std::quick_exit(C)
 //          eexit:C  (in the EARLY phase) std::exit(C) from the global object's constructor
 #ifdef VERIF_HEADER_ONLY
@@ -44,7 +55,8 @@ const char *const kTemplates[] = { "plain.log", "t_%{time yyyy}.log", "t_%{time}
                                    "two_%{time yyyy}_%{time MM}.log", "odd_%{timeyyyy}.log",
                                    "missing_dir/cannot_open.log" };   // the last one cannot be opened: the sinks' error paths
 const int kTemplateCount = int(sizeof kTemplates / sizeof kTemplates[0]);
-const char *const kPatterns[] = { "[%{message:*^7}]|%{type}", "%{if-warning}W%{endif}%{category} %{message:>6}", "%{shortfile}:%{line} %{function}" };
+const char *const kPatterns[] = { "[%{message:*^7}]|%{type}", "%{if-warning}W%{endif}%{category} %{message:>6}", "%{shortfile}:%{line} %{function}",
+                                  "" };                               // the empty pattern
 const int kPatternCount = int(sizeof kPatterns / sizeof kPatterns[0]);
 
 // everything the program keeps alive until static destruction; declared BEFORE the global object that runs the early phase
@@ -66,6 +78,8 @@ QString nextText(const char *prefix)
 
 QString pathOf(int t)
 {
+    if (t < 0)
+        return QString();      // the empty path
     return g_dir + QLatin1Char('/') + QString::fromLatin1(kTemplates[((t % kTemplateCount) + kTemplateCount) % kTemplateCount]);
 }
 
@@ -127,6 +141,43 @@ void runOps(const QByteArray &ops, bool early, QScopedPointer<QCoreApplication> 
             l.format(QStringLiteral("%{message}")).sendToFile(pathOf(arg(f, 1)));
             for (int i = 0, n = arg(f, 2); i < n; ++i)
                 l.processMessage(QtInfoMsg, QMessageLogContext("own.cpp", i, "void g()", "own"), nextText("own"));
+        } else if (k == "ownr") {
+            Logger l;
+            l.format(QStringLiteral("%{message}")).sendToFile(pathOf(arg(f, 1)), arg(f, 2), arg(f, 3), RotatingFileSink::Options(arg(f, 4)));
+            for (int i = 0, n = arg(f, 5); i < n; ++i)
+                l.processMessage(QtInfoMsg, QMessageLogContext("ownr.cpp", i, "void g()", "own"), nextText("ownr"));
+        } else if (k == "edge") {
+            const int kind = ((arg(f, 1) % 4) + 4) % 4;
+            Logger l;
+            if (kind == 0 || kind == 3) {
+                l.append(HandlerPtr());
+                l << HandlerPtr();
+                l.remove(HandlerPtr());
+                l.appendAttrHandler(AttrHandlerPtr());
+                l.appendFilter(FilterPtr());
+                l.setFormatter(FormatterPtr());
+                l.appendSink(SinkPtr());
+                l.appendPipeline(PipelinePtr());
+            }
+            if (kind == 1 || kind == 3) {
+                l.sendToFile(QString());
+                l.sendToFile(QString(), 1, -1);
+                l.sendToIODevice(QIODevicePtr());
+                QtLogger::configure(static_cast<Pipeline *>(nullptr), pathOf(arg(f, 2)), 1, -1);
+            }
+            if (kind == 2 || kind == 3) {
+                l.filterCategory(QString());
+                l.format(QString());
+                PatternFormatter pf{ QString() };
+                LogMessage lmsg(QtWarningMsg, QMessageLogContext("/src/dir/file.cpp", 42, "void ns::f(int)", "net.http"), QStringLiteral("abc"));
+                std::printf("edge-pat [%s]\n", pf.format(lmsg).toUtf8().constData());
+                std::fflush(stdout);
+            } else {
+                l.format(QStringLiteral("%{type} %{message}"));
+            }
+            l.sendToFile(pathOf(arg(f, 2)));
+            for (int i = 0, n = arg(f, 3); i < n; ++i)
+                l.processMessage(i % 2 ? QtWarningMsg : QtInfoMsg, QMessageLogContext("edge.cpp", i, "void e()", i % 3 ? "app" : "net.http"), nextText("edge"));
         } else if (k == "pipe") {
             Logger l;
             switch (((arg(f, 1) % 4) + 4) % 4) {
